@@ -4,6 +4,7 @@ package gvc
 // counted in Exec.Trusted and reported in the evidence.
 
 import (
+	"strconv"
 	"fmt"
 	"go/types"
 	"math/big"
@@ -465,6 +466,46 @@ func (x *Exec) injective1(st *State, fn string, argSort, resSort string, a, r Te
 	st.assume(Eq(App(argSort, inv, r), a))
 }
 
+// separatedFormat: the format (a quoted Go constant) consists of exactly n plain verbs (%d %s %v %x
+// %t %q, no flags, width or precision), any two of which are separated by literal text that contains
+// a character no decimal number contains, and it renders every argument in full.
+func separatedFormat(quoted string, n int) bool {
+	f, err := strconv.Unquote(quoted)
+	if err != nil {
+		return false
+	}
+	verbs := 0
+	sepOK := true // text since the previous verb holds a separating character
+	first := true
+	for i := 0; i < len(f); i++ {
+		if f[i] != '%' {
+			if !(f[i] >= '0' && f[i] <= '9') && f[i] != '-' && f[i] != '+' {
+				sepOK = true
+			}
+			continue
+		}
+		if i+1 >= len(f) {
+			return false
+		}
+		i++
+		if f[i] == '%' {
+			sepOK = true
+			continue
+		}
+		switch f[i] {
+		case 'd', 's', 'v', 'x', 't', 'q':
+		default:
+			return false
+		}
+		if !first && !sepOK {
+			return false
+		}
+		first, sepOK = false, false
+		verbs++
+	}
+	return verbs == n
+}
+
 func init() {
 	// fmt.Sprintf / fmt.Sprint with a constant format: an uninterpreted function of the boxed
 	// arguments, assumed injective (no separator characters inside %s arguments; see DESIGN T5).
@@ -495,12 +536,18 @@ func init() {
 		fn := "sprintf_" + shortHash(format)
 		x.D.DeclareFun(fn, sorts, SStr)
 		r := x.define(st, "fmt", App(SStr, fn, args...))
-		for i := range args {
-			inv := fmt.Sprintf("%s.arg%d", fn, i)
-			x.D.DeclareFun(inv, []string{SStr}, SIface)
-			st.assume(Eq(App(SIface, inv, r), args[i]))
+		if separatedFormat(format, n) {
+			for i := range args {
+				inv := fmt.Sprintf("%s.arg%d", fn, i)
+				x.D.DeclareFun(inv, []string{SStr}, SIface)
+				st.assume(Eq(App(SIface, inv, r), args[i]))
+			}
+			x.Trusted["assumed injective: fmt.Sprintf("+format+")"]++
+		} else {
+			// adjacent verbs, a width / precision, or a verb count that does not match: the
+			// rendering can merge or drop argument content, so no inverse is assumed
+			x.Abstracted["fmt.Sprintf("+format+") not assumed injective"]++
 		}
-		x.Trusted["assumed injective: fmt.Sprintf("+format+")"]++
 		v := Val{T: r, Typ: types.Typ[types.String]}
 		x.assumeTyped(st, v)
 		return v, true
